@@ -396,12 +396,19 @@ fn run_plumbed_server(limit: usize, delta: i64, encode_side: bool, sized: bool, 
     o.nontrivial = true;
     let len = (limit as i64 + delta).max(0) as usize;
     let over = len > limit;
+    // the limit of the other direction is set as well, to a clearly different value: each of the four generated
+    // handlers must hand each limit to the right side
+    let other = limit * 2 + 64;
+    // all four method kinds (the one-message request fits every shape)
+    let kind = (limit / 3 + len) % 4;
+    let path4 = ["/vt.Raw/Unary", "/vt.Raw/ServerStream", "/vt.Raw/ClientStream", "/vt.Raw/Bidi"][kind];
+    o.label(["plumbed_server_unary", "plumbed_server_server_stream", "plumbed_server_client_stream", "plumbed_server_bidi"][kind]);
     if encode_side {
         // handler answers with a message of `len` bytes; server configured with max_encoding_message_size
         let sh = Shared::new(vec![HandlerScript { msgs: vec![RespMsg { data: Blob::Rnd(len as u32, 5), pend: 0, delay_ms: 0 }], ..Default::default() }]);
-        let mut svc = vt::raw_server::RawServer::new(sh.clone()).max_encoding_message_size(limit);
+        let mut svc = vt::raw_server::RawServer::new(sh.clone()).max_encoding_message_size(limit).max_decoding_message_size(other);
         let body = ScriptBody::new(vec![BodyStep::Data(Bytes::from(wire::frame(0, b"q")))]);
-        let ans = mock::call_service(&mut svc, mock::grpc_request("/vt.Raw/Unary", &[], body), 256).map_err(|e| Failure { sig: "C06/plumbed-server-call".into(), detail: e })?;
+        let ans = mock::call_service(&mut svc, mock::grpc_request(path4, &[], body), 256).map_err(|e| Failure { sig: "C06/plumbed-server-call".into(), detail: e })?;
         let st = ans.status_obj();
         if over {
             ensure!(st.as_ref().map(|s| s.code()) == Some(Code::OutOfRange), "C06/encoding-limit-not-plumbed", "server max_encoding_message_size({limit}) with a {len}-byte response: status {:?}", st.map(|s| s.code()));
@@ -411,15 +418,28 @@ fn run_plumbed_server(limit: usize, delta: i64, encode_side: bool, sized: bool, 
         }
     } else {
         let sh = Shared::new(vec![HandlerScript { msgs: vec![RespMsg { data: Blob::of(b"r"), pend: 0, delay_ms: 0 }], ..Default::default() }]);
-        let mut svc = vt::raw_server::RawServer::new(sh.clone()).max_decoding_message_size(limit);
+        let mut svc = vt::raw_server::RawServer::new(sh.clone()).max_decoding_message_size(limit).max_encoding_message_size(other);
         let mut body = ScriptBody::new(vec![BodyStep::Data(Bytes::from(wire::frame(0, &payload_of(len, 3))))]);
         // a peer that announces the size of its body (content-length, or an in-process `Full` body)
         body.sized = sized;
         o.label_if(sized, "request_body_announces_its_size");
-        let path = if stream { "/vt.Raw/ServerStream" } else { "/vt.Raw/Unary" };
-        let ans = mock::call_service(&mut svc, mock::grpc_request(path, &[], body), 256).map_err(|e| Failure { sig: "C06/plumbed-server-call".into(), detail: e })?;
+        let _ = stream;
+        let ans = mock::call_service(&mut svc, mock::grpc_request(path4, &[], body), 256).map_err(|e| Failure { sig: "C06/plumbed-server-call".into(), detail: e })?;
         let st = ans.status_obj();
         let entered = !sh.log.lock().unwrap().is_empty();
+        if kind >= 2 {
+            // streaming requests: the handler owns the request stream; what it read from it is the verdict
+            let log = sh.log.lock().unwrap().clone();
+            let l = log.first();
+            let got = l.map(|l| l.msgs.len()).unwrap_or(0);
+            let err = l.and_then(|l| l.req_error.clone());
+            if over {
+                ensure!(got == 0 && err.as_ref().map(|e| e.0) == Some(Code::OutOfRange), "C06/decoding-limit-not-plumbed", "server max_decoding_message_size({limit}) on {path4} with a {len}-byte request message: the handler read {got} message(s), stream error {err:?}");
+            } else {
+                ensure!(got == 1 && err.is_none(), "C06/decoding-limit-too-strict", "server max_decoding_message_size({limit}) on {path4} with a {len}-byte request message: the handler read {got} message(s), stream error {err:?}");
+            }
+            return Ok(());
+        }
         if over {
             ensure!(st.as_ref().map(|s| s.code()) == Some(Code::OutOfRange), "C06/decoding-limit-not-plumbed", "server max_decoding_message_size({limit}) with a {len}-byte request: status {:?}", st.map(|s| s.code()));
             ensure!(!entered, "C06/handler-ran-for-oversize-request", "handler ran although the request message was over the limit");
